@@ -16,6 +16,7 @@ pub fn run_case(c: &Sexp) -> Option<R<Sexp>> {
     if l.is_empty() { return None; }
     match l[0].atom() {
         Ok("hist") if l.len() >= 2 => Some(hist(&l[1], &l[2..])),
+        Ok("timer") => Some(timer_history(&l[1..])),
         _ => None,
     }
 }
@@ -115,5 +116,41 @@ fn hist(kbx: &Sexp, ops: &[Sexp]) -> R<Sexp> {
         }
     }
     verif_stop_after_reads(None);
+    Ok(L(obs))
+}
+
+
+// (timer OP...) - the stop-query flag protocol of time_out.rs, driven step by step:
+//   (start) start_query_timer with a one-hour limit (the real thread never fires during the case)
+//   (fire K) the K-th timer started in this case times out NOW (hook verif_timer_timed_out) - also when it
+//            has been cancelled or superseded: ThreadTimer::cancel() may fail and a late time-out must be harmless
+//   (cancel) cancel_timer on the most recent timer still held   (start-query) (stop) (read)
+// Observation after every step: (st <query number relative to the start of the case> <status 0|1|2> <flag 0|1>).
+fn timer_history(ops: &[Sexp]) -> R<Sexp> {
+    start_query();
+    let g0 = verif_query_state() >> 2;
+    let mut timers = vec![];
+    let mut states: Vec<u64> = vec![];
+    let mut obs: Vec<Sexp> = vec![a("tobs")];
+    for op in ops {
+        let ol = op.list()?;
+        match ol[0].atom()? {
+            "start" => { let t = start_query_timer(3_600_000); states.push(verif_query_state()); timers.push(t); },
+            "start-query" => start_query(),
+            "fire" => {
+                let k = ol[1].atom()?.parse::<usize>().map_err(|e| e.to_string())?;
+                if k < states.len() { verif_timer_timed_out(states[k]); }
+            },
+            "cancel" => { if let Some(t) = timers.pop() { cancel_timer(t); } else { return Err("cancel: no timer".into()); } },
+            "stop" => stop_query(),
+            "read" => {},
+            x => return Err(format!("timer op: {}", x)),
+        }
+        let s = verif_query_state();
+        obs.push(L(vec![a("st"), A(((s >> 2) - g0).to_string()), A((s & 3).to_string()),
+                        a(if query_stopped() { "1" } else { "0" })]));
+    }
+    while let Some(t) = timers.pop() { cancel_timer(t); }
+    start_query();
     Ok(L(obs))
 }
